@@ -98,3 +98,23 @@ T('C17', 'lesser-flipped-same', 'local.py', "            if ref > item:", "     
 T('C17', 'reshape-method', 'local.py', "final_arr = np.reshape(final_arr, (-1, raster[data_vars[0]].data.shape[1]))\n    final_arr = xr.DataArray(final_arr)\n\n    return final_arr\n\n\ndef combine",
   "final_arr = final_arr.reshape(-1, raster[data_vars[0]].data.shape[1])\n    final_arr = xr.DataArray(final_arr)\n\n    return final_arr\n\n\ndef combine")
 T('C17', 'lowest-inline', 'local.py', "        min_value = min(comb)\n        min_index = comb.index(min_value) + 1\n\n        out.append(min_index)", "        out.append(comb.index(min(comb)) + 1)")
+
+# ------------------------------------------------------------------------------------------------ C18
+NANEQ = "if e == val or (np.isnan(e) and np.isnan(val)):"
+M('C18', 'trim-plain-eq', 'zonal.py', NANEQ, "if e == val:", 'T1', first=True)
+M('C18', 'trim-right-not-inclusive', 'zonal.py', "arr = raster[top: bottom + 1, left: right + 1]", "arr = raster[top: bottom + 1, left: right]", 'T3-slice')
+M('C18', 'trim-axes-swapped', 'zonal.py', "arr = raster[top: bottom + 1, left: right + 1]", "arr = raster[left: right + 1, top: bottom + 1]", 'T3-slice')
+M('C18', 'trim-bottom-ascending', 'zonal.py', "    bottom = 0\n    scan_complete = False\n    for y in range(rows - 1, -1, -1):\n        if scan_complete:\n            break\n        bottom = y\n        for x in range(cols):\n            val = data[y, x]\n            is_nodata = False",
+  "    bottom = 0\n    scan_complete = False\n    for y in range(rows):\n        if scan_complete:\n            break\n        bottom = y\n        for x in range(cols):\n            val = data[y, x]\n            is_nodata = False", 'T2-scan')
+M('C18', 'trim-bound-after-scan', 'zonal.py', "        if scan_complete:\n            break\n        left = x\n        for y in range(rows):\n            val = data[y, x]\n            is_nodata = False",
+  "        left = x\n        if scan_complete:\n            break\n        for y in range(rows):\n            val = data[y, x]\n            is_nodata = False", 'T2-stop')
+M('C18', 'trim-return-order', 'zonal.py', "    return top, bottom, left, right\n\n\ndef trim(", "    return top, bottom, right, left\n\n\ndef trim(", 'T3-order')
+M('C18', 'crop-slices-zones', 'zonal.py', "arr = values[top: bottom + 1, left: right + 1]", "arr = zones[top: bottom + 1, left: right + 1]", 'T3-slice')
+M('C18', 'crop-transposed-read', 'zonal.py', "        right = x\n        for y in range(rows):\n            val = data[y, x]\n            for e in values:", "        right = x\n        for y in range(rows):\n            val = data[x, y]\n            for e in values:", 'T2-index')
+M('C18', 'crop-line-short', 'zonal.py', "        bottom = y\n\n        for x in range(cols):\n            val = data[y, x]\n            for e in values:", "        bottom = y\n\n        for x in range(cols - 1):\n            val = data[y, x]\n            for e in values:", 'T2-line')
+M('C18', 'trim-keep-inverted', 'zonal.py', "            if not is_nodata:\n                scan_complete = True\n                break\n\n    # find empty bottom rows", "            if is_nodata:\n                scan_complete = True\n                break\n\n    # find empty bottom rows", 'T2-keep')
+M('C18', 'trim-copy-result', 'zonal.py', "    arr = raster[top: bottom + 1, left: right + 1]\n    arr.name = name\n    return arr", "    arr = raster[top: bottom + 1, left: right + 1]\n    arr.name = name\n    arr.attrs = {}\n    return arr", 'T3-return')
+T('C18', 'trim-helper-eq', 'zonal.py', NANEQ, "if _nan_equal(e, val):", all=True,
+  edits=[('xrspatial/zonal.py', NANEQ, "if _nan_equal(e, val):"), ('xrspatial/zonal.py', "@ngjit\ndef _trim(data, excludes):", "@ngjit\ndef _nan_equal(a, b):\n    return a == b or (np.isnan(a) and np.isnan(b))\n\n\n@ngjit\ndef _trim(data, excludes):")])
+T('C18', 'trim-range-0', 'zonal.py', "    top = 0\n    scan_complete = False\n    for y in range(rows):\n\n        if scan_complete:\n            break\n\n        top = y\n        for x in range(cols):\n            val = data[y, x]\n            is_nodata = False",
+  "    top = 0\n    scan_complete = False\n    for y in range(0, rows):\n\n        if scan_complete:\n            break\n\n        top = y\n        for x in range(cols):\n            val = data[y, x]\n            is_nodata = False")
